@@ -19,24 +19,24 @@ def cases(tier, seed=0):
         dims = [(1, 1)] if ident else [(1, 1), (2, 1), (1, 2)]
         for (Dx, Dy) in dims:
             for (Rc, Rx) in batches:
-                if kind == "nncontrol" and Rc > 1:
+                if kind == "nncontrol" and Rc > 2:
                     continue
                 out.append(make_case(PROP, "bayes", kind, Dx, Dy, Rc, Rx, timeout=400))
         for (Rc, Rx) in batches:
-            if kind == "nncontrol" and Rc > 1:
+            if kind == "nncontrol" and Rc > 2:
                 continue
             for semi in rotations(kind, 2):
                 out.append(make_case(PROP, "bayes", kind, 2, 2, Rc, Rx, semi=semi, timeout=600))
         for (Dx, Dy) in ([(1, 1)] if ident else [(1, 1), (2, 1), (1, 2)]):
             for (Rc, Rx) in batches:
-                if kind == "nncontrol" and Rc > 1:
+                if kind == "nncontrol" and Rc > 2:
                     continue
                 semi = () if (Dx, Dy) == (1, 1) else ("Sx",)
                 out.append(make_case(PROP, "roundtrip", kind, Dx, Dy, Rc, Rx, semi=semi, timeout=600))
         if tier == "thorough":
             for (Dx, Dy) in ([(2, 2)] if ident else [(2, 2), (3, 1), (1, 3), (2, 3), (3, 2)]):
                 for (Rc, Rx) in batches + [(1, 3), (3, 1)]:
-                    if kind == "nncontrol" and Rc > 1:
+                    if kind == "nncontrol" and Rc > 2:
                         continue
                     if (Dx, Dy) == (2, 2):
                         if Rc * Rx <= 2:
@@ -56,5 +56,5 @@ def cases(tier, seed=0):
                 continue
             sm = var + ((("Sx",) if dd == (2, 2) else ()))
             out.append(make_case(PROP, "bayes", kind, dd[0], dd[1], 1, 1, semi=sm, timeout=600))
-            out.append(make_case(PROP, "bayes", kind, 1, 1, 1 if kind == "nncontrol" else 2, 1, semi=var, timeout=600))
+            out.append(make_case(PROP, "bayes", kind, 1, 1, 2, 1, semi=var, timeout=600))
     return out
